@@ -25,7 +25,8 @@ from .. import primlib as pl
 PID = "C10"
 PROOF_FILES = ["theories/Props/C10.v", "theories/Proofs/DistBase.v", "theories/Proofs/DistPoint.v",
                "theories/Proofs/DistTriangle.v", "theories/Proofs/DistRect.v", "theories/Proofs/DistRound.v",
-               "theories/Proofs/DistLine.v", "theories/Proofs/DistPlane.v", "theories/Proofs/DistComb.v",
+               "theories/Proofs/DistLine.v", "theories/Proofs/DistPlane.v", "theories/Proofs/DistPlaneHull.v",
+               "theories/Proofs/DistComb.v",
                "theories/Checker/Prim.v"]
 TOL_ON = 1e-9
 TOL_CONS = 1e-6
@@ -296,6 +297,12 @@ def coq_prim(p):
 
 def coq_witness(prim, x):
     """untrusted membership witness for the Coq checker: the member point and its parameters"""
+    if prim["kind"] == "circle":
+        # Checker/Prim.circle_on_tol: untrusted rational lower bound rl of rho = sqrt(rho2) in the first witness slot
+        h2, rho2 = pl.circle_parts(prim, x)
+        if rho2 <= 0:
+            return None
+        return f"{qv((Fr(0), Fr(0), Fr(0)))} {qv((pl.sqrt_lo(rho2), Fr(0), Fr(0)))}"
     y, w = pl.witness(prim, x)
     if y is None:
         return None
@@ -319,12 +326,23 @@ def coq_case_expr(case, r):
 
 
 def have_coq_checker():
-    return (cm.COQ / "theories" / "Checker" / "Prim.vo").exists()
+    return coq_checker_planned() and (cm.COQ / "theories" / "Checker" / "Prim.vo").exists()
 
 
 def coq_checker_planned():
-    """the checker source exists, so its .vo must have been built"""
-    return (cm.COQ / "theories" / "Checker" / "Prim.v").exists()
+    """the checker source exists and is complete (states both soundness theorems), so its .vo must have been built"""
+    f = cm.COQ / "theories" / "Checker" / "Prim.v"
+    if not f.exists():
+        return False
+    txt = f.read_text()
+    return "Theorem c10_check_sound" in txt and "Theorem sep_cert_sound" in txt
+
+
+def build_targets(pid):
+    t = [f"theories/Props/{pid}.vo"]
+    if coq_checker_planned():
+        t.append("theories/Checker/Prim.vo")
+    return t
 
 
 def theorem_coverage(R, pid):
@@ -369,9 +387,9 @@ def run(tier, seed, replay=None):
     coqchk = coq_checker_planned()
     R.assumptions += [
         "theorems are about the Gallina model Model/DistPrim.v run in exact real arithmetic; float rounding is measured, not proved",
-        ("the on-primitive/consistency verdict for each generated input is a consequence of Checker/Prim.v soundness theorems "
-         "(vm_compute on exact rationals); for the circle the exact Python fractions oracle primlib.dist2_upper is used (no rational "
-         "points on a general circle) -- labelled python-exact-oracle") if coqchk else
+        ("the on-primitive/consistency verdict for each generated input is a consequence of Checker/Prim.c10_check_sound "
+         "(vm_compute on exact rationals; membership witnesses are untrusted; circle: closed form h^2+(rho-r)^2 with an untrusted, "
+         "checked rational lower bound of rho)") if coqchk else
         ("the on-primitive/consistency verdict for each generated input is decided by the exact Python fractions oracle "
          "(primlib.witness/member/dist2_upper: an explicit member point of the primitive, verified exactly, within tol of the returned "
          "point) -- labelled python-exact-oracle; no Coq-proven checker is involved in the per-input verdicts yet"),
@@ -381,7 +399,8 @@ def run(tier, seed, replay=None):
     ]
     have_props = (cm.COQ / "theories" / "Props" / "C10.v").exists()
     if have_props:
-        R.check_proofs([f for f in PROOF_FILES if (cm.COQ / f).exists()])
+        R.check_proofs([f for f in PROOF_FILES if (cm.COQ / f).exists() and (not f.endswith("Checker/Prim.v") or coq_checker_planned())],
+                       build_targets=build_targets(PID))
     else:
         R.proof_broken.append("Props/C10.v missing")
     theorem_coverage(R, PID)
@@ -456,9 +475,14 @@ def run(tier, seed, replay=None):
         R.corr_broken.append("Checker/Prim.vo not built")
     R.cov["judged_by_coq_checker"] = n_coq
     R.cov["judged_by_python_exact_oracle_only"] = n_pyonly + (0 if have_coq_checker() else len(cases))
-    R.cov["oracle_labels"] = {"circle functions (point/line/line_segment_to_circle)": "python-exact-oracle (fractions)",
-                              "all other kinds": ("coq-proven-checker (Checker/Prim.v) + python fractions cross-check" if have_coq_checker()
-                                                  else "python-exact-oracle (fractions); decides alone")}
+    R.cov["oracle_labels"] = (
+        {"all 34 functions": "coq-proven-checker Checker/Prim.c10_check (c10_check_sound; vm_compute on the exact rationals of inputs and "
+                             "outputs, untrusted witness from primlib) DECIDES; the python fractions oracle is evaluated as well and any "
+                             "disagreement between the two is reported as a broken correspondence",
+         "cases without a Coq verdict (counted in judged_by_python_exact_oracle_only)": "exception / non-finite output / circle with the "
+                             "returned point exactly on the axis: python-exact-oracle"}
+        if have_coq_checker() else
+        {"all 34 functions": "python-exact-oracle (fractions); decides alone"})
 
     # ---- model correspondence
     c10corr.correspondence(R, PID, cases, results, tier)
